@@ -98,7 +98,7 @@ def generate(rng, tier, idx):
     if rng.random() < 0.25:
         rows[rng.randrange(len(rows))][0] = 'bad'          # runtime error at that record for int(a1)
     world = {'rows': rows, 'join_rows': workload.gen_join_table(rng, rng.choice([0, 1, 2, 3, 4])),
-             'header': rng.random() < 0.3, 'list_quirks': None}
+             'header': rng.random() < 0.3, 'list_quirks': None, 'wal': rng.random() < 0.3}
     if rng.random() < 0.3:
         world['list_quirks'] = {'shared': rng.random() < 0.5, 'ragged': rng.random() < 0.5, 'none_cell': rng.random() < 0.5, 'ragged_join': rng.random() < 0.5}
     nops = rng.choice([1, 2, 2, 3, 3, 4, 5, 6])
@@ -198,12 +198,16 @@ class World(object):
         con.execute('create table tb (key text, jval text, jtag text)')
         con.executemany('insert into tb values (?,?,?)', [tuple(r[:3]) for r in jrows])
         con.commit()
+        if spec.get('wal'):
+            # write-ahead-log mode is a persistent setting in the file header; close() checkpoints and removes -wal/-shm
+            con.execute('PRAGMA journal_mode=WAL;').fetchall()
         con.close()
         self.db_hash = sha(self.db_path)
         self.statements = []
+        self.statements_checked = 0
         self.writable_source_opens = 0
-        self.con = sqlite3.connect(self.db_path)
-        self.con.set_trace_callback(self.statements.append)
+        self.con = None                 # opened per operation: no second connection while the code under test has one
+        self.api_changes = 0
         self.cli_connections = []
         # pandas
         import pandas
@@ -216,11 +220,22 @@ class World(object):
         self.js_rows = [list(r) for r in rows]
         self.js_join = [list(r) for r in jrows]
 
+    def open_con(self):
+        self.con = sqlite3.connect(self.db_path)
+        self.con.set_trace_callback(self.statements.append)
+        return self.con
+
+    def close_con(self):
+        if self.con is not None:
+            try:
+                self.api_changes += self.con.total_changes
+                self.con.close()
+            except Exception:
+                pass
+            self.con = None
+
     def close(self):
-        try:
-            self.con.close()
-        except Exception:
-            pass
+        self.close_con()
         for c in self.cli_connections:
             try:
                 c.close()
@@ -260,11 +275,22 @@ class World(object):
                     # A writable handle on a source is suspicious but changes nothing by itself: the content
                     # hash above is the oracle, this is only reported as a probe.
                     self.writable_source_opens += 1
-        for st in self.statements:
-            if re.match(r'^SELECT \* FROM [A-Za-z0-9_]*;$', st) is None and st != "SELECT name FROM sqlite_master WHERE type='table';":
+        hostile = None
+        f = op.get('fault') if isinstance(op, dict) else None
+        if f and f.get('ident') and re.match(r'^[A-Za-z0-9_]*$', f['ident']) is None:
+            hostile = f['ident']
+        for st in self.statements[self.statements_checked:]:
+            m = re.match(r'^SELECT \* FROM (.*);$', st, re.S)
+            if m is not None:
+                if re.match(r'^[A-Za-z0-9_]*$', m.group(1)) is None:
+                    return ('sqlite_statement', {'statement': st})
+            elif hostile is not None and hostile in st:
+                # whatever the statement is, an identifier with other characters reached sqlite verbatim
                 return ('sqlite_statement', {'statement': st})
-        if self.con.total_changes != 0 or any(c.changes() != 0 for c in self.cli_connections):
-            return ('sqlite_total_changes', {'total_changes': self.con.total_changes})
+            # other statements (e.g. a PRAGMA a maintainer might add) are judged by their effect: file hash and total_changes below
+        self.statements_checked = len(self.statements)
+        if self.api_changes != 0 or any(c.changes() != 0 for c in self.cli_connections):
+            return ('sqlite_total_changes', {'total_changes': self.api_changes})
         if sha(self.db_path) != self.db_hash:
             return ('sqlite_changed', {})
         for name, df, snap in (('A', self.dfA, self.dfA_snap), ('B', self.dfB, self.dfB_snap)):
@@ -404,8 +430,11 @@ def run_op(t, world, op):
                         t.csv.query_csv(op['query'], world.in_path, ',', 'quoted', out_path if to_file else None, ',', 'quoted', 'utf-8', warnings, bool(world.header))
                         outcome = ['ok']
                     elif front == 'sqlite':
-                        t.sqlite.query_sqlite_to_csv(op['query'], world.con, table, out_path, ',', 'quoted_rfc', 'utf-8', warnings)
-                        outcome = ['ok']
+                        try:
+                            t.sqlite.query_sqlite_to_csv(op['query'], world.open_con(), table, out_path, ',', 'quoted_rfc', 'utf-8', warnings)
+                            outcome = ['ok']
+                        finally:
+                            world.close_con()
                     else:
                         sqlite3.connect = traced_connect
                         try:
@@ -500,11 +529,12 @@ def shrinks(sc):
         c['world'] = dict(w)
         c['world']['list_quirks'] = None
         yield c
-    if w.get('header'):
-        c = dict(sc)
-        c['world'] = dict(w)
-        c['world']['header'] = False
-        yield c
+    for flag in ('header', 'wal'):
+        if w.get(flag):
+            c = dict(sc)
+            c['world'] = dict(w)
+            c['world'][flag] = False
+            yield c
     last = ops[-1]
     if last.get('fault'):
         c = dict(sc)
